@@ -168,7 +168,7 @@ def run(ctx):
     late_binding_rule(ctx, "C28.R5", ("ppci/lang/", "ppci/common.py", "ppci/utils/"))
     from ..report import Sub
     from . import c27
-    c27.run(Sub(ctx, "C27", only=["C27.R3"]))   # an unconverted constant ends in struct.error when it is packed
+    c27.run(Sub(ctx, "C27", only=["C27.R3", "C27.R5"]))   # an unconverted constant ends in struct.error when it is packed
 
 
 def _literal_range(ctx):
